@@ -105,7 +105,7 @@ def exc_enum(e: BaseException) -> str:
 def make(spec: dict):
     """Build an estimator from a spec: {'cls': name, **kwargs}; nested specs allowed."""
     with quiet():
-        return _make(spec)
+        return _make(deepcopy(spec))   # never hand the same list/array objects to two instances
 
 
 def _make(spec):
